@@ -37,7 +37,7 @@ ANCHORS = [("leuvenmapmatching/map/sqlite.py", "SqliteMap.read_properties"),
            ("leuvenmapmatching/map/base.py", "BaseMap.use_latlon")]
 FLOORS = {"reopen_cycles:planar": 100, "reopen_cycles:latlon": 80, "deferred_commit_histories": 50, "deferred_index_histories": 50,
           "committing_ops_checked": 1500, "reindex_checked": 100, "pickle_cycles": 60, "queries_compared": 4000,
-          "reopen_with_first_connection_open": 40, "repeated_node_adds": 100}
+          "reopen_with_first_connection_open": 40, "repeated_node_adds": 100, "debug_level_histories": 300}
 ASSUMPTIONS = ["a history that used no_commit ends with an explicit db.commit() before the map is reopened (the documented contract: "
                "'remember to commit later'); histories that used no_index end with the matching reindex_* call in 85 % of the cases, "
                "otherwise only original-vs-reopened (not the model) is compared on index-backed listings",
@@ -363,10 +363,15 @@ def check_pickle(ctx, case):
 
 
 def check_case(ctx, case):
-    if case["backend"] == "sqlite":
-        check_sqlite(ctx, case)
-    else:
-        check_pickle(ctx, case)
+    # persistence does not depend on the log level: every 5th history is built, reopened and queried at DEBUG
+    dbg = (sum(len(str(x)) for x in case.get("nodes", case.get("map", {}).get("nodes", []))) % 5) == 0
+    if dbg:
+        ctx.count("debug_level_histories")
+    with env.debug_level(dbg):
+        if case["backend"] == "sqlite":
+            check_sqlite(ctx, case)
+        else:
+            check_pickle(ctx, case)
 
 
 TECHNIQUE = "runtime monitoring: build history applied to the real map and to a model; transaction-state hook after every operation; differential comparison original / reopened / model"
